@@ -230,7 +230,7 @@ func run(r *mon.Run) {
 	certs := []*certurl.AugmentedCertificate{idA.Chain[0], idA.Chain[1], idB.Chain[0]}
 	n := 3000
 	if r.Thorough {
-		n = 60000
+		n = 300000
 	}
 	var prevRead *bundle.Bundle
 	var prevWant map[string][]flatEx
